@@ -31,7 +31,10 @@ class Check(BaseCheck):
         for k, c in enumerate(corr_fem.aniso_meshes(self.seed, 6 if self.quick else 60)):
             lump = bool(k % 2)
             stats.case(core.mesh_key(c["v"], c["t"], lump, "aniso"), cls=["tri-aniso:" + c["name"], "lump:%s" % lump, "aniso:" + ("pair" if isinstance(c["aniso"], tuple) else "scalar")])
-            err = corr_fem.compare_fem_aniso(drv, c["v"], c["t"], lump, c["aniso"], c["smooth"])
+            reuse = k % 3 == 2
+            err = corr_fem.compare_fem_aniso(drv, c["v"], c["t"], lump, c["aniso"], c["smooth"], reuse=reuse)
+            if reuse:
+                stats.monitor("anisotropic Solver rebuilt on the same object after smooth_")
             if err:
                 fails.append(core.Failure("correspondence", "anisotropic Solver vs model", "%s lump=%s: %s" % (c["name"], lump, err),
                                           dict(corr_fem.case_dict("tri", c["v"], c["t"], lump=lump, name=c["name"]), aniso=c["aniso"], smooth=c["smooth"])))
@@ -41,22 +44,60 @@ class Check(BaseCheck):
     def search_cases(self):
         for k, c in enumerate(gen.tria_stream(self.seed + 1, 40 if self.quick else 300, "small")):
             for lump in (False, True):
-                yield corr_fem.case_dict("tri", c["v"] * corr_fem.SCALES[k % len(corr_fem.SCALES)], c["t"], lump=lump, dt="f64", name=c["name"])
+                yield corr_fem.case_dict("tri", c["v"] * corr_fem.SCALES[k % len(corr_fem.SCALES)], c["t"], lump=lump, dt="f64", name=c["name"], pres=c.get("pres"))
         for c in gen.tet_stream(self.seed + 1, 12 if self.quick else 100, "small"):
             yield corr_fem.case_dict("tet", c["v"], c["t"], lump=False, dt="f64", name=c["name"])
+        for c in corr_fem.aniso_meshes(self.seed + 2, 6 if self.quick else 40):
+            yield dict(corr_fem.case_dict("tri", c["v"], c["t"], lump=False, name=c["name"]), aniso=c["aniso"], smooth=c["smooth"])
+
+    def aniso_oracle(self, case):
+        """aniso = 0 coincides with the isotropic matrix to single precision; aniso >= 0: symmetric, annihilates constants, PSD, energy
+        not above the isotropic one — on a fresh mesh and on a mesh object whose vertices were moved after an earlier Solver was built"""
+        v = np.asarray(case["v"], dtype=np.float64); t = np.asarray(case["t"], dtype=np.int64)
+        an = case["aniso"]; an = tuple(an) if isinstance(an, (list, tuple, np.ndarray)) else float(an)
+        sm = int(case.get("smooth", 2))
+        rng = gen.rng_for(self.seed, "c01-aniso", len(v))
+        for reuse in (False, True):
+            try:
+                with core.quiet():
+                    m = TriaMesh(v, t)
+                    if reuse:
+                        Solver(m, aniso=an, aniso_smooth=sm)
+                        m.smooth_(1)
+                    a_an = Solver(m, aniso=an, aniso_smooth=sm).stiffness.astype(np.float64)
+                    a_0 = Solver(m, aniso=0.0, aniso_smooth=sm).stiffness.astype(np.float64)
+                    a_iso = Solver(TriaMesh(np.array(m.v), np.array(m.t))).stiffness.astype(np.float64)
+            except Exception as e:  # noqa: BLE001
+                return core.Violation("aniso", "anisotropic Solver raised %s: %s" % (type(e).__name__, e), case)
+            how = " (Solver rebuilt on the same mesh object after smooth_)" if reuse else ""
+            scale = max(abs(a_iso).max(), 1e-300)
+            if abs(a_0 - a_iso).max() > 1e-3 * scale:
+                return core.Violation("aniso-zero", "aniso=0 stiffness differs from the isotropic matrix by %.3g of its largest entry%s" % (abs(a_0 - a_iso).max() / scale, how), case)
+            if abs(a_an - a_an.T).max() > 1e-5 * scale or np.max(np.abs(a_an @ np.ones(len(v)))) > 1e-4 * scale:
+                return core.Violation("aniso-structure", "anisotropic stiffness not symmetric / does not annihilate constants%s" % how, case)
+            for _ in range(3):
+                f = rng.normal(size=len(v))
+                e_an = float(f @ (a_an @ f)); e_iso = float(f @ (a_iso @ f))
+                if e_an < -1e-5 * abs(e_iso) or e_an > e_iso * (1 + 1e-3):
+                    return core.Violation("aniso-energy", "anisotropic energy %.6g outside [0, isotropic energy %.6g]%s" % (e_an, e_iso, how), case)
+        return None
 
     def oracle(self, case):
+        if case.get("aniso") is not None:
+            return self.aniso_oracle(case)
         kind = case["kind"]
         v = np.asarray(case["v"], dtype=np.float64); t = np.asarray(case["t"], dtype=np.int64)
         lump = bool(case.get("lump", False))
         try:
-            m, s = corr_fem.impl_fem(kind, v, t, lump)
+            m, s = corr_fem.impl_fem(kind, v, t, lump, pres=case.get("pres"))
         except Exception as e:  # noqa: BLE001
             return core.Violation("stiffness", "Solver raised %s: %s" % (type(e).__name__, e), case)
         a = s.stiffness.astype(np.float64)
         n = a.shape[0]
         if len(np.unique(t)) != len(v):
-            return None            # property quantifies over meshes without unused vertices
+            return None
+        if kind == "tri" and np.min(np.linalg.norm(corr_fem.tri_geom(v, t)[3], axis=1)) < 4 * np.finfo(float).eps:
+            return None            # below the kernel's own absolute degeneracy guard (2^-52): outside the property's quantifier            # property quantifies over meshes without unused vertices
         scale = max(abs(a).max(), 1e-300)
         if not np.all(np.isfinite(a.data)):
             return core.Violation("finite", "non-finite stiffness entries", case)
@@ -82,7 +123,7 @@ class Check(BaseCheck):
         if kind == "tri":
             t2 = gen.rotate_rows(rng, t2)
         try:
-            _, s2 = corr_fem.impl_fem(kind, v, t2, lump)
+            _, s2 = corr_fem.impl_fem(kind, v, t2, lump, pres=case.get("pres"))
             a2 = s2.stiffness.astype(np.float64)
             if a2.shape != a.shape or abs(a - a2).max() > 1e-8 * scale:
                 return core.Violation("order-independence", "stiffness changes when element vertex order/orientation changes", case)
